@@ -13,6 +13,7 @@ see the end of this file and `level_note` in bin/props_d/c11.py.
 -/
 import FV.Model.Compile
 import FV.Proofs.Compile
+import FV.Generated.Census11
 
 namespace FV.C11
 open FV FV.Compile
@@ -22,5 +23,125 @@ open FV FV.Compile
 theorem c11_casing_total (s svc : Name) :
     (∃ r, snakeToCamel s = .ok r) ∧ (∃ r, title s = .ok r) ∧ (∃ r, titleServiceName s svc = .ok r) :=
   ⟨snakeToCamel_isOk s, titleServiceName_isOk s [], titleServiceName_isOk s svc⟩
+
+/-- `UnderlyingType` terminates on every validated file, for EVERY type it may be asked about
+(declared or not, qualified or not): the recursion depth is at most the number of typedefs the
+file can see plus one. (`validateFile ctx = ok` is `(*Frugal).validate` returning nil.) -/
+theorem c11_underlying_terminates (ctx : Ctx) (h : validateFile ctx = .ok ()) (t : Ty) (fuel : Nat)
+    (hf : typedefLimit ctx + 2 ≤ fuel) : ∃ r, underlying ctx fuel t = .ok r :=
+  underlying_ok_of_validated ((validateFile_ok_iff ctx).mp h).typedefs t fuel hf
+
+/-- … hence the stack overflow (a fatal error `recover` cannot catch) is unreachable after
+validation. -/
+theorem c11_no_stack_overflow (ctx : Ctx) (h : validateFile ctx = .ok ()) (t : Ty) (fuel : Nat)
+    (hf : typedefLimit ctx + 2 ≤ fuel) : underlying ctx fuel t ≠ .panic .stackOverflow := by
+  obtain ⟨r, hr⟩ := c11_underlying_terminates ctx h t fuel hf
+  rw [hr]; intro hc; cases hc
+
+/-- Every typedef cycle is rejected. A cycle (of any length, through includes or not) is a
+non-empty list of types each of which resolves in one hop to a member of the list. The typedef
+check then returns an error (never a panic), and so `validate` does not return nil. -/
+theorem c11_cyclic_typedef_rejected (ctx : Ctx) (cyc : List Ty) (hne : cyc ≠ [])
+    (hstep : ∀ t ∈ cyc, ∃ t' ∈ cyc, typedefTarget ctx t = some t') :
+    (∃ e, validateTypedefs ctx = .err e) ∧ validateFile ctx ≠ .ok () := by
+  obtain ⟨t0, h0⟩ := List.exists_mem_of_ne_nil cyc hne
+  have hr := validateTypedefs_rejects_closed ctx (· ∈ cyc)
+    (fun t ht => by obtain ⟨t', hm, hs⟩ := hstep t ht; exact ⟨t', hs, hm⟩) t0 h0
+  refine ⟨hr, fun hv => ?_⟩
+  obtain ⟨e, he⟩ := hr
+  rw [((validateFile_ok_iff ctx).mp hv).typedefs] at he
+  cases he
+
+/-- `-gen` parsing (`CleanGenParam`) never panics, whatever the string: `s[1]` is only evaluated
+after `strings.Contains(gen, ":")` resp. `len(s) != 1`. -/
+theorem c11_gen_param_total (gen : Name) : ∀ p, cleanGenParam gen ≠ .panic p :=
+  cleanGenParam_not_panic gen
+
+/-- The two helpers that CAN panic do so only outside what the grammar produces: the empty name
+(`LowercaseFirstLetter`) — an `Identifier` has at least one character. -/
+theorem c11_lowerFirst_total_on_identifiers (s : Name) (h : s ≠ []) : ∃ r, lowerFirst s = .ok r :=
+  lowerFirst_isOk s h
+
+/-- PARTIAL (named plainly): `valid ⇒ ok` for the modelled Go path, with `valid` taken as
+"`validate` returned nil" (`validateFile ctx = ok`). On every validated file no modelled panic
+site of the Go generation path is reachable: every declared identifier goes through `title`
+and every used type through `UnderlyingType` without a panic outcome.
+MISSING for the full `c11_valid_front_ok`: a declarative `Valid : Prog → Prop` written
+independently of `validate` with `Valid p → front p = ok`; the harness checks that direction on
+every generated valid program instead (op `val`: real verdict `ok`, model verdict `ok`). -/
+theorem c11_valid_front_ok_partial (ctx : Ctx) (h : validateFile ctx = .ok ()) :
+    goPath ctx = .ok () ∧ (∀ n ∈ ctx.self.declaredNames, ∃ r, title n = .ok r) ∧
+    (∀ t ∈ ctx.self.usedTypes, ∃ r, underlying ctx (typedefLimit ctx + 2) t = .ok r) :=
+  ⟨goPath_ok_of_validated ctx h, fun n _ => titleServiceName_isOk n [],
+   fun t _ => c11_underlying_terminates ctx h t _ (Nat.le_refl _)⟩
+
+/-- `validate` returns nil exactly when each of its ten parts does (first error wins, in the
+order of the code): the reading of `validate` the diagnosed-kinds theorem below is stated on. -/
+theorem c11_validate_parts (ctx : Ctx) : validateFile ctx = .ok () ↔ FileChecks ctx :=
+  validateFile_ok_iff ctx
+
+/-- PARTIAL (named plainly): invalid ⇒ not accepted, for the invalidity kinds `validate` is
+responsible for that are about TYPES RESOLVING and TYPEDEFS: a typedef of an unknown type, a
+struct-like field / return / argument / throws / scope-operation of a type that does not resolve
+make `validate` fail. MISSING: the duplicate-name, duplicate-id, oneway and include kinds as Lean
+theorems (the model implements them and the harness compares the model's error CLASS with the
+real one on injected invalidities of every checked kind, op `val`), and "fails" strengthened to
+"returns an error, never a panic" for the whole of `validate` (proved here for the typedef part:
+`c11_cyclic_typedef_rejected`). -/
+theorem c11_invalid_diagnosed_partial (ctx : Ctx) :
+    ((∃ td ∈ ctx.self.typedefs, isValidType ctx td.ty = false) → validateFile ctx ≠ .ok ()) ∧
+    ((∃ s ∈ ctx.self.scopes, ∃ o ∈ s.ops, isValidType ctx o.ty = false) → validateFile ctx ≠ .ok ()) := by
+  refine ⟨?_, ?_⟩
+  · rintro ⟨td, hm, hinv⟩ hv
+    have ht := ((validateFile_ok_iff ctx).mp hv).typedefs
+    unfold validateTypedefs at ht
+    obtain ⟨⟨⟩, h1, _⟩ := CRes.bind_ok_inv ht
+    have := guardV_ok (firstErr_ok h1 td hm)
+    rw [hinv] at this; cases this
+  · rintro ⟨s, hs, o, ho, hinv⟩ hv
+    have ht := ((validateFile_ok_iff ctx).mp hv).scopes
+    unfold validateScopes at ht
+    have := guardV_ok (firstErr_ok (firstErr_ok ht s hs) o ho)
+    rw [hinv] at this; cases this
+
+/-- The census of syntactically partial operations of `main.go` and `compiler/**`
+(regenerated from the source on every check) has no unclassified site: each is mapped to the
+model clause that covers it or to the reason it is guarded / unreachable
+(`known/c11_census_expected.json`). A new, changed or vanished site fails the `generate` step. -/
+theorem c11_census_classified :
+    FV.Generated.Census11.sites.all (fun s => decide (0 < s.2.2 ∧ s.2.2 ≤ FV.Generated.Census11.classes.length)) = true := by
+  decide
+
+/-! ### Non-vacuity -/
+
+def exCyclic : Ctx :=
+  { self := { name := "prog".toList,
+              typedefs := [⟨"A".toList, .named "B".toList⟩, ⟨"B".toList, .named "A".toList⟩] },
+    incs := [] }
+
+def exChain : Ctx :=
+  { self := { name := "prog".toList,
+              typedefs := [⟨"a".toList, .named "i64".toList⟩, ⟨"b".toList, .named "a".toList⟩,
+                           ⟨"c".toList, .list (.named "b".toList)⟩],
+              structs := [⟨.struct, "foo__bar".toList, [⟨1, "_x".toList, .named "c".toList⟩]⟩] },
+    incs := [] }
+
+-- the witness of the fixed stack overflow is a cycle in the sense of the theorem, and is rejected
+example : (∃ e, validateTypedefs exCyclic = .err e) ∧ validateFile exCyclic ≠ .ok () :=
+  c11_cyclic_typedef_rejected exCyclic [.named "A".toList, .named "B".toList] (by simp) (by
+    intro t ht
+    simp at ht
+    rcases ht with rfl | rfl
+    · exact ⟨.named "B".toList, by simp, by decide⟩
+    · exact ⟨.named "A".toList, by simp, by decide⟩)
+example : validateTypedefs exCyclic = .err .typedefCycle := by decide
+-- a non-trivial file validates; resolution follows the chain; the casing helpers handle empty words
+example : validateFile exChain = .ok () := by decide
+example : underlying exChain (typedefLimit exChain + 2) (.named "b".toList) = .ok (.named "i64".toList) := by decide
+example : snakeToCamel "foo__bar".toList = .ok "FooBar".toList := by decide
+example : snakeToCamel "_x".toList = .ok "X".toList := by decide
+example : title "user_id".toList = .ok "UserID".toList := by decide
+example : lowerFirst [] = .panic .index := by decide
+example : includeNameToReference "..".toList = .panic .index := by decide
 
 end FV.C11
